@@ -68,7 +68,7 @@ Lemma total_power_spec pumping inj prod t :
 Proof.
   unfold total_power. destruct pumping; intros H.
   - destruct (zipQ_spec _ _ _ _ H) as (La & _ & Hn). split; [exact La|exact Hn].
-  - injection H as <-. rewrite map_length. split; [reflexivity|]. intros i Hi. rewrite map_length in Hi.
+  - injection H as <-. rewrite map_length. split; [reflexivity|]. intros i Hi.
     rewrite (nth_indep _ 0 (clamp0 0)) by (rewrite map_length; exact Hi). apply map_nth.
 Qed.
 
@@ -88,6 +88,7 @@ Proof.
   intros Hpp Hpi Ht.
   pose proof (zipQ_all (fun x => 0 <= x) _ (prod_power_nonneg pumping nprod q eff) _ _ _ Hpp) as Npp.
   pose proof (zipQ_all (fun x => 0 <= x) _ (inj_power_nonneg nprod q wl eff) _ _ _ Hpi) as Npi.
+  cbv beta in Npp, Npi.
   destruct (total_power_spec _ _ _ _ Ht) as (Lt & Hn).
   split; [exact Lt|]. split; [exact Npp|]. split; [exact Npi|]. split.
   - intros i Hi. rewrite Hn by exact Hi. apply clamp0_nonneg.
